@@ -69,6 +69,8 @@ func DataWithSeqBytes(content []byte, seq uint64) []byte {
 type proofEntry struct {
 	key     int
 	payload string
+	// dids: the identifiers the harness made this signature for (empty: unspecified)
+	dids map[string]bool
 }
 
 // DidModel is the DID registry model plus the harness-side proof ledger.
@@ -115,6 +117,8 @@ func (m *DidModel) Clone() *DidModel {
 type ProofReg struct {
 	Key     int    `json:"key"`
 	Payload string `json:"payload_b64"`
+	// DID is the identifier the holder made the proof for.
+	DID string `json:"did,omitempty"`
 }
 
 // RegisterProofs re-makes the listed signatures and enters them into the ledger.
@@ -124,12 +128,17 @@ func (w *World) RegisterProofs(regs []ProofReg) {
 		if err != nil || r.Key < 0 || r.Key >= len(w.Keys) {
 			continue
 		}
-		w.DID.SignProof(w.Keys, r.Key, bz)
+		w.DID.SignProofFor(w.Keys, r.Key, bz, r.DID)
 	}
 }
 
 // SignProof signs payload with pool key ki and records it in the ledger.
 func (m *DidModel) SignProof(keys []DIDKey, ki int, payload []byte) []byte {
+	return m.SignProofFor(keys, ki, payload, "")
+}
+
+// SignProofFor also records which identifier the proof was made for.
+func (m *DidModel) SignProofFor(keys []DIDKey, ki int, payload []byte, did string) []byte {
 	var sig []byte
 	var err error
 	if keys[ki].IsSecp() {
@@ -140,8 +149,22 @@ func (m *DidModel) SignProof(keys []DIDKey, ki int, payload []byte) []byte {
 	if err != nil {
 		panic(err)
 	}
-	m.Ledger[hex.EncodeToString(sig)] = proofEntry{ki, string(payload)}
+	k := hex.EncodeToString(sig)
+	e, ok := m.Ledger[k]
+	if !ok {
+		e = proofEntry{ki, string(payload), map[string]bool{}}
+	}
+	if did != "" {
+		e.dids[did] = true
+	}
+	m.Ledger[k] = e
 	return sig
+}
+
+// ProofKey returns the pool key a harness-made signature was made with.
+func (m *DidModel) ProofKey(sig []byte) (int, bool) {
+	e, ok := m.Ledger[hex.EncodeToString(sig)]
+	return e.key, ok
 }
 
 // proofValid: was sig made by the harness over exactly payload, and with which key.
@@ -355,6 +378,16 @@ func (w *World) observeDID(obs *TxObs) error {
 			}
 			if !ok {
 				return vio("C03", "%s for %s accepted without a valid proof by a current authentication key (%s; absent=%v active=%v)", kind, did, v.Why, v.Absent, v.Active)
+			}
+		}
+		if w.On("C11") {
+			// an ownership proof produced for one identifier must not write under another
+			if le, ok := m.Ledger[hex.EncodeToString(sig)]; ok && len(le.dids) > 0 && !le.dids[did] {
+				if kind == "update" && doc.GetId() == "" && w.Opt.Open["C11-unbound-empty-update-proof"] {
+					w.Excluded["C11-unbound-empty-update-proof"]++
+				} else {
+					return vio("C11", "%s under %s accepted with an ownership proof that was produced for %v only", kind, did, sortedKeys(le.dids))
+				}
 			}
 		}
 		if w.On("C11") && !v.IDMatches {
